@@ -203,6 +203,11 @@ static std::string classify_exit(int status, pid_t pid, std::string& prop, std::
     return info;
 }
 
+// A prelude is a list of earlier units executed (results ignored) in the same fresh process before the plan under judgement:
+// it reproduces violations that only show after other calls, i.e. when the library carries hidden state between calls.
+struct PreUnit { Plan plan; std::string mode; UnitPick pick; };
+static thread_local const std::vector<PreUnit>* tl_prelude = nullptr;
+
 static IsoResult exec_isolated(const Plan& plan, Replicas& reps, const std::string& mode, const UnitPick& p, const std::string& focus, bool verbose, int timeout_s = 600) {
     IsoResult out; int fd[2]; if (pipe(fd) != 0) abort();
     fflush(stdout); fflush(stderr);
@@ -211,6 +216,7 @@ static IsoResult exec_isolated(const Plan& plan, Replicas& reps, const std::stri
         close(fd[0]);
         mkdir((verif_root() + "/build/tmp").c_str(), 0755);
         int efd = open(errfile_for(getpid()).c_str(), O_WRONLY | O_CREAT | O_TRUNC, 0644); if (efd >= 0) { dup2(efd, 2); close(efd); }
+        if (tl_prelude) for (auto& pu : *tl_prelude) run_fixed(pu.plan, reps, pu.mode, pu.pick, focus, false);
         RunResult r = run_fixed(plan, reps, mode, p, focus, verbose);
         std::string s = result_to_json(r)->dump(false);
         size_t off = 0; while (off < s.size()) { ssize_t w = write(fd[1], s.data() + off, s.size() - off); if (w <= 0) break; off += (size_t) w; }
@@ -290,6 +296,12 @@ static JsonP replay_json(const std::string& prop, const Violation& v, const Plan
     auto va = Json::arr(); for (int x : p.views) va->push(Json::integer(x)); j->set("views", va);
     j->set("expected_fingerprint", fp); j->seti("seed", (int64_t) seed); j->seti("run_index", (int64_t) idx); j->set("tier", tier);
     j->set("plan", plan.to_json());
+    if (tl_prelude && !tl_prelude->empty()) {
+        auto pa = Json::arr();
+        for (auto& pu : *tl_prelude) { auto o = Json::obj(); o->set("mode", pu.mode); auto r2 = Json::arr(); for (auto& r : pu.pick.reps) r2->push(Json::str(r)); o->set("replicas", r2); auto v2 = Json::arr(); for (int x : pu.pick.views) v2->push(Json::integer(x)); o->set("views", v2); o->set("plan", pu.plan.to_json()); pa->push(o); }
+        j->set("prelude", pa);
+        j->set("prelude_note", "these units are executed first, in the same process, results ignored: the violation only shows after them, i.e. the library carries state between calls");
+    }
     return j;
 }
 
@@ -301,6 +313,9 @@ int run_replay(const std::string& path, bool verbose) {
     UnitPick p; for (auto& r : j->get("replicas")->a) p.reps.push_back(r->s); for (auto& v : j->get("views")->a) p.views.push_back((int) v->inum);
     Replicas reps; std::string err; if (!reps.load(replica_dir(), err)) { fprintf(stderr, "replica load failed: %s\n", err.c_str()); return 2; }
     std::string focus = j->gets("property");
+    std::vector<PreUnit> prelude;
+    if (auto pj = j->get("prelude")) for (auto& e : pj->a) { PreUnit pu; Plan::from_json(*e->get("plan"), pu.plan); pu.mode = e->gets("mode"); for (auto& r : e->get("replicas")->a) pu.pick.reps.push_back(r->s); for (auto& v : e->get("views")->a) pu.pick.views.push_back((int) v->inum); prelude.push_back(pu); }
+    if (!prelude.empty()) tl_prelude = &prelude;
     IsoResult r = exec_isolated(plan, reps, j->gets("mode"), p, focus, verbose);
     if (verbose) for (auto& l : r.r.log_lines) printf("  %s\n", l.c_str());
     bool same = r.r.violated && r.r.v.prop == j->gets("violated_property") && r.r.v.oracle == j->gets("oracle");
@@ -318,7 +333,7 @@ struct Unit { size_t b; uint64_t idx; };
 
 struct Worker {
     pid_t pid = -1; int fd = -1; std::string buf; std::vector<Unit> todo; size_t next = 0;   // next: first unit not yet confirmed done
-    bool inflight = false; Unit cur{0, 0}; double started = 0; bool done = false;
+    bool inflight = false; Unit cur{0, 0}; double started = 0; bool done = false; size_t start = 0;
 };
 
 static void worker_main(int wfd, const std::vector<Unit>& units, size_t from, CheckSpec& spec, Replicas& reps, uint64_t seed) {
@@ -342,7 +357,7 @@ static void spawn(Worker& w, CheckSpec& spec, Replicas& reps, uint64_t seed) {
     fflush(stdout); fflush(stderr);
     pid_t pid = fork();
     if (pid == 0) { close(fd[0]); worker_main(fd[1], w.todo, w.next, spec, reps, seed); }
-    close(fd[1]); w.pid = pid; w.fd = fd[0]; w.buf.clear(); w.inflight = false; w.done = false;
+    close(fd[1]); w.pid = pid; w.fd = fd[0]; w.buf.clear(); w.inflight = false; w.done = false; w.start = w.next;
 }
 
 static void merge(CheckState& st, const RunResult& r) {
@@ -477,7 +492,32 @@ int run_check(const std::string& prop, const std::string& tier, uint64_t seed, i
         Plan plan = plan_for(b, u.b, seed, u.idx); UnitPick p = pick(b, u.idx);
         // confirm in a fresh process, then shrink within the same violation class
         IsoResult first = exec_isolated(plan, reps, b.mode, p, prop, false);
-        if (!first.r.violated) { printf("HARNESS-NONDETERMINISM: violation seen in batch did not reproduce in isolation (%s %s)\n", viols[0].second.v.prop.c_str(), viols[0].second.v.oracle.c_str()); write_evidence(st, now_s() - t0, 0, known); return 2; }
+        std::vector<PreUnit> prelude;
+        if (!first.r.violated) {
+            // Not reproducible alone. The harness is deterministic (selftest), so the library itself may carry state between calls:
+            // replay the history of the worker that saw it (the units it executed before this one), then minimise that history.
+            for (auto& w : ws) for (size_t i = w.start; i < w.todo.size(); i++) if (w.todo[i].b == u.b && w.todo[i].idx == u.idx) {
+                for (size_t k = w.start; k < i; k++) { const Batch& pb = spec.batches[w.todo[k].b]; prelude.push_back({plan_for(pb, w.todo[k].b, seed, w.todo[k].idx), pb.mode, pick(pb, w.todo[k].idx)}); }
+            }
+            tl_prelude = &prelude;
+            first = exec_isolated(plan, reps, b.mode, p, prop, false);
+            if (!first.r.violated || !same_class(first.r, viols[0].second.v)) { tl_prelude = nullptr; printf("HARNESS-NONDETERMINISM: violation seen in batch did not reproduce, neither alone nor after the same history (%s %s)\n", viols[0].second.v.prop.c_str(), viols[0].second.v.oracle.c_str()); write_evidence(st, now_s() - t0, 0, known); return 2; }
+            printf("violation only shows after earlier calls in the same process (%zu units of history): the library carries state between calls; minimising the history...\n", prelude.size()); fflush(stdout);
+            Violation hv = first.r.v; int tests = 0;
+            size_t chunk = prelude.size() / 2;
+            while (chunk >= 1 && tests < 80) {
+                bool any = false;
+                for (size_t si = 0; si < prelude.size() && tests < 80;) {
+                    std::vector<PreUnit> cand = prelude; size_t e = std::min(prelude.size(), si + chunk); cand.erase(cand.begin() + (long) si, cand.begin() + (long) e);
+                    tl_prelude = &cand; tests++; IsoResult r = exec_isolated(plan, reps, b.mode, p, prop, false);
+                    if (same_class(r.r, hv)) { prelude = cand; any = true; } else si += chunk;
+                }
+                if (!any) chunk /= 2;
+                if (prelude.size() <= 1) break;
+            }
+            tl_prelude = &prelude;
+            printf("  history minimised to %zu unit(s) in %d re-executions\n", prelude.size(), tests);
+        }
         Violation v = first.r.v; int used = 0;
         printf("violation %s/%s at %s run %llu; shrinking (%zu ops)...\n", v.prop.c_str(), v.oracle.c_str(), b.scenario.c_str(), (unsigned long long) u.idx, plan.ops.size()); fflush(stdout);
         Plan small = shrink(plan, reps, b.mode, p, prop, v, tier == "quick" ? 150 : 400, used);
